@@ -57,7 +57,7 @@ def run(ctx):
             ctx.corr_broken.append("observed trace is not a trace of Model/Debounce.v (case %d, %s): %s" %
                                    (m, c.get("kind"), json.dumps((c.get("in") or {}).get("trace", c.get("in")))[:900]))
     st = state["stats"]
-    if cases:
+    if cases and not ctx.corr_broken and not ctx.violations:
         for k in ("failed_calls", "reapply_events", "traces_with_coalescing", "burst_checked", "ktraces_with_coalescing",
                   "real_body_scenarios", "real_reload_signal_failures"):
             if st.get(k, 0) == 0:
